@@ -23,13 +23,15 @@ KINDS = [
     (re.compile(r'invariant not satisfied'), 'invariant'),
     (re.compile(r'decreases not satisfied|could not prove termination'), 'decreases'),
     (re.compile(r'index out of bounds|slice index|possible.*out of (bounds|range)'), 'bounds'),
-    (re.compile(r'unwrap|recommendation not met'), 'recommends'),
+    (re.compile(r'recommendation not met'), 'recommends'),
     (re.compile(r'Resource limit|rlimit|timed? ?out|canceled'), 'rlimit'),
     (re.compile(r'trait (method )?implementation|does not satisfy the trait'), 'trait-contract'),
 ]
 
 
 def classify_msg(msg):
+    if re.search(r'not supported|unsupported|not yet supported|cannot find|mismatched types|expected ', msg):
+        return 'other'
     for rx, k in KINDS:
         if rx.search(msg):
             return k
